@@ -53,7 +53,7 @@ def main_explore(pid, tier, seed, m, mutation_only=False, extra_oracle=None):
     loop = asyncio.new_event_loop()
     stats = {"evaluations": 0, "schedules": 0, "nontrivial": set(), "problems": [], "disagreements": [], "samples": [], "max_gates": 0,
              "exhaustive_requests": 0, "tree_direct_mismatch": 0}
-    nschemas, ndocs, nrandom = (6, 10, 6) if tier == "quick" else (40, 40, 25)
+    nschemas, ndocs, nrandom = (10, 14, 6) if tier == "quick" else (60, 40, 25)
     t0 = time.time()
     for si in range(nschemas):
         sg = SchemaGen(rng, with_mutation=True if mutation_only else None)
@@ -63,7 +63,7 @@ def main_explore(pid, tier, seed, m, mutation_only=False, extra_oracle=None):
             for f in o["fields"]:
                 coord = f"{o['name']}.{f['name']}"
                 if coord not in renv["resolvers"] and rng.random() < 0.35:
-                    renv["resolvers"][coord] = {"k": "const", "v": sg.value_for(f["type"], 3, 0.05)} if rng.random() < 0.8 else {"k": "raise", "v": {"x": False, "m": "nested boom", "e": []}}
+                    renv["resolvers"][coord] = {"k": "const", "v": sg.value_for(f["type"], 3, 0.05)} if rng.random() < 0.7 else {"k": "raise", "v": {"x": False, "m": "nested boom", "e": []}}
         engines = []
         for cfg in (CONFIGS if tier != "quick" else rng.sample(CONFIGS, 4)):
             engines.append((cfg, loop.run_until_complete(er.build_engine(sg.model(), renv, cfg=cfg))))
@@ -173,8 +173,9 @@ def main_explore(pid, tier, seed, m, mutation_only=False, extra_oracle=None):
     loop.close()
     return stats
 
-def finish(pid, tier, seed, b, m, stats, rule, assumptions):
+def finish(pid, tier, seed, b, m, stats, rule, assumptions, t0=None):
     v = fw.Verdict(pid, tier, seed)
+    if t0: v.t0 = t0
     for p in stats["problems"][:3]:
         v.violation({"property": pid, "seed": seed, **p, "undischarged_theorems": b["failing"]})
     if not stats["problems"] and (not b["sound"] or stats["disagreements"] or m is None or stats["tree_direct_mismatch"]):
@@ -195,8 +196,9 @@ ASSUME = ["asyncio is abstracted to: any awaited resolver may complete next, the
 if __name__ == "__main__":
     tier = sys.argv[1] if len(sys.argv) > 1 else "quick"
     seed = int(sys.argv[2]) if len(sys.argv) > 2 else 0
+    T0 = __import__("time").time()
     b = fw.build("C08", thorough=(tier == "thorough"))
     m = Model() if b["driver_ok"] else None
     stats = main_explore("C08", tier, seed, m)
     if m: m.close()
-    sys.exit(finish("C08", tier, seed, b, m, stats, RULE, ASSUME))
+    sys.exit(finish("C08", tier, seed, b, m, stats, RULE, ASSUME, T0))
